@@ -728,9 +728,36 @@ func ruleC04Escape(p *Program, r *Run, g *grammar) {
 			got, ok := esc[c]
 			r.Check(ok && got == w.esc[c], "C04/escape", fmt.Sprintf("%s escapes %q", fn, c), p.Pos(fd.Pos()), fmt.Sprintf("%q is written as %q", c, w.esc[c]), fmt.Sprintf("the byte %q is copied unchanged (found %q): in the ClickHouse dialect it %s", c, got, map[bool]string{true: "ends the quoted token", false: "escapes the following character, so a value ending in it swallows the closing quote"}[c != `\`]))
 		}
+		// any other byte that is rewritten must decode back to itself (a backslash escape of the dialect)
+		var extra []string
+		for c := range esc {
+			if _, documented := w.esc[c]; !documented {
+				extra = append(extra, c)
+			}
+		}
+		sort.Strings(extra)
+		for _, c := range extra {
+			r.Check(escapeDecodesTo(esc[c], c), "C04/escape", fmt.Sprintf("%s rewrites %q", fn, c), p.Pos(fd.Pos()), fmt.Sprintf("%q is written as %q, which the dialect decodes back to the byte", c, esc[c]), fmt.Sprintf("the byte %q is written as %q inside a token delimited by %s: the dialect does not decode that back to the byte, so the token carries a different value than the one written", c, esc[c], w.delim))
+		}
 		r.Check(copied, "C04/escape", fn+" copies other bytes", p.Pos(fd.Pos()), "every other byte is copied unchanged", "no byte is copied: the value is lost")
 	}
 	r.Floor("C04/escape", 8)
+}
+
+// escapeDecodesTo: does the ClickHouse lexer decode the written text back to the single byte b inside a quoted token?
+func escapeDecodesTo(written, b string) bool {
+	if written == b {
+		return true
+	}
+	if len(written) == 2 && written[0] == '\\' {
+		switch written[1] {
+		case '\'', '"', '`', '\\':
+			return b == written[1:]
+		}
+		named := map[byte]string{'n': "\n", 't': "\t", 'r': "\r", '0': "\x00", 'b': "\b", 'f': "\f", 'a': "\a", 'v': "\v"}
+		return named[written[1]] == b
+	}
+	return false
 }
 
 // ruleC04Numbers: number tokens take their value from the normalising functions.
@@ -859,14 +886,16 @@ func ruleC02Clauses(p *Program, r *Run) {
 				continue
 			}
 			var order []string
-			ast.Inspect(cc, func(n ast.Node) bool {
-				if rs, ok := n.(*ast.RangeStmt); ok {
-					if f := selField(info, rs.X); f != nil {
-						order = append(order, f.Name())
+			for _, root := range p.regionOf(p.PQL, cc) {
+				ast.Inspect(root, func(n ast.Node) bool {
+					if rs, ok := n.(*ast.RangeStmt); ok {
+						if f := selField(info, rs.X); f != nil {
+							order = append(order, f.Name())
+						}
 					}
-				}
-				return true
-			})
+					return true
+				})
+			}
 			ok := len(order) >= 2 && order[0] == "GroupBy" && order[1] == "Cols"
 			r.Check(ok, "C02/clauses", fn+" summarize lists group keys before aggregates", p.Pos(cc.Pos()), "select list: GroupBy loop, then Cols loop", fmt.Sprintf("the summarize select list is written in the order %v; documented: group keys first, then aggregates", order))
 		}
